@@ -289,8 +289,10 @@ func (s *Session) bind(o *Config) {
 		return
 	}
 
-	if iq.XMLName.Local != "iq" || iq.Type != stanza.IQTypeResult {
-		s.err = errors.New("iq bind result expected, got " + iq.XMLName.Local + " of type " + string(iq.Type))
+	// Decode(&iq) accepts any element (IQ decodes itself): the answer has to be an <iq/> of the stream's own
+	// namespace. An element that is merely called "iq" in another namespace is not the bind result.
+	if iq.XMLName.Local != "iq" || iq.XMLName.Space != stanza.NSClient || iq.Type != stanza.IQTypeResult {
+		s.err = errors.New("iq bind result expected, got " + iq.XMLName.Space + " " + iq.XMLName.Local + " of type " + string(iq.Type))
 		return
 	}
 
@@ -341,8 +343,8 @@ func (s *Session) rfc3921Session() {
 			s.err = errors.New("expecting iq result after session open: " + s.err.Error())
 			return
 		}
-		if iq.XMLName.Local != "iq" || iq.Type != stanza.IQTypeResult {
-			s.err = errors.New("expecting iq result after session open, got " + iq.XMLName.Local + " of type " + string(iq.Type))
+		if iq.XMLName.Local != "iq" || iq.XMLName.Space != stanza.NSClient || iq.Type != stanza.IQTypeResult {
+			s.err = errors.New("expecting iq result after session open, got " + iq.XMLName.Space + " " + iq.XMLName.Local + " of type " + string(iq.Type))
 			return
 		}
 	}
